@@ -76,7 +76,7 @@ RULE = ("per element configuration (41 of them: Count, Sum, DSum, Mean[None|Sum(
         "default|group_by|merge], Histogram[1-d, initial bins, make_bins, initial_value; 2-d by the oracle only], Graph[scale, "
         "sort]): EVERY history of up to 4 calls (thorough: up to 5 for the single-accumulator families) over {fill(v1), "
         "fill(v2), compute, reset}; construction argument checks of Histogram and Vectorize; a regression corpus; plus seeded "
-        "random histories fill* (compute|reset|fill)* of up to 12 calls (quick 12 000, thorough 300 000) with ints (up to "
+        "random histories fill* (compute|reset|fill)* of up to 12 calls (quick 8 000, thorough 300 000) with ints (up to "
         "1e30 for Sum), exactly summable floats of mixed magnitude (multiples of 2**-k, k up to 20), (data, context) pairs "
         "with flat and nested contexts; DSum and Mean(DSum()) with arbitrary floats (denormals to 1e308, cancelling pairs, "
         "huge ints).  Non-trivial: a construction error, or at least two fills and a compute that yields something.")
@@ -1291,7 +1291,7 @@ def gen_cases(ctx):
         depth = 4 if quick else (4 if big else 5)
         for h in _all_histories(alphabet, depth):
             cases.append({"el": spec, "ops": h, "sh": sh})
-    n = 12000 if quick else 300000
+    n = 8000 if quick else 300000
     for _ in range(n):
         cases.append(_rand_case(rng, 12))
     ctx.exhaustive = False
